@@ -45,6 +45,18 @@ func (r *Room) Add(conn *Connection) error {
 		return ErrRoomFull
 	}
 
+	// A connection the hub has dropped joins nothing. The hub marks it closed
+	// and then takes it out of every room (under this lock), so a join that
+	// comes after the disconnect - a message handler or an HTTP route still
+	// holding the connection - would otherwise leave it in the room for good.
+	if conn != nil && conn.closed != nil {
+		select {
+		case <-conn.closed:
+			return ErrConnectionClosed
+		default:
+		}
+	}
+
 	r.connections[conn] = true
 	return nil
 }
